@@ -17,7 +17,7 @@ def conf_nontrivial(tok, res):
         return res == "err" or len(tok) > 3
     if op == "cf":
         return res.startswith("ok") and len(tok) > 6
-    if op in ("cval", "sval", "nr", "bweq", "pload", "own"):
+    if op in ("cval", "sval", "svalv", "ccval", "nr", "bweq", "pload", "own"):
         return True
     return op in ("prstr", "prrt", "tmpl", "port")
 
@@ -35,9 +35,30 @@ def conf_class(r):
     return " ".join(r.split(" ")[:2])[:28]
 
 
+def confcmd_nontrivial(tok, res):
+    # the processes ran (or were refused) and something was observed of both
+    return tok[0] in ("xc", "xs") and " // " in res and "none=b1" not in res
+
+
+def confcmd_class(r):
+    parts = r.split(" // ")
+    if len(parts) != 3:
+        return "malformed"
+    if parts[0] != parts[1]:
+        return "flags and file differ"
+    if parts[0].startswith("rej="):
+        return "refused by validation (both)"
+    if "timeout=" in parts[0]:
+        return "timeout"
+    if "login=s6e6f" in parts[0]:
+        return "ran, login refused (both)"
+    return "ran, same behaviour (both)"
+
+
 PROP = {
         "level": "proof",
-        "gens": ["ProxyMsg", "Flags", "TypedConf"],
+        "gens": ["ProxyMsg", "Flags", "TypedConf", "CmdWire"],
+        "extra_targets": ["Frp.Props.C18Cmd"],
         "theorems": [
             "Frp.C18.tables_ok", "Frp.C18.tables_covered", "Frp.C18.marshal_fields_exact",
             "Frp.C18.recon_shape", "Frp.C18.types_exact", "Frp.C18.complete_get",
@@ -70,10 +91,22 @@ PROP = {
             "Frp.C18.load_section_held", "Frp.C18.strict_every_level", "Frp.C18.strict_verdict_own",
             "Frp.C18.strict_unheld_witness", "Frp.C18.strictHoldsOn_sound",
             "Frp.C18.proxy_complete_idem", "Frp.C18.visitor_complete_idem", "Frp.C18.visitor_complete_twice_witness",
+            "Frp.C18.web_blocks", "Frp.C18.web_accept_iff_blocks", "Frp.C18.web_port_checked",
+            "Frp.C18.server_accept_iff_blocks", "Frp.C18.clientcommon_accept_iff_blocks",
+            "Frp.C18.clientcommon_accept", "Frp.C18.model_clientCommonHoldsOn",
+            "Frp.C18.own_config_tls_effective", "Frp.C18.own_config_addr_effective", "Frp.C18.ownRegs_tls_effective",
+            "Frp.C18.shared_config_tls_witness", "Frp.C18.shared_config_only_last",
+            "Frp.C18.frpc_subcommands_own_config", "Frp.C18.frpc_flags_bound_to_run_objects",
+            "Frp.C18.frpc_tls_flag_effective", "Frp.C18.frpc_addr_flags_effective", "Frp.C18.frpc_subcommand_types",
+            "Frp.C18.frpc_run_steps_expected", "Frp.C18.frps_flags_reach_run", "Frp.C18.cmdHoldsOn_sound",
+            "Frp.C18.model_cmdHoldsOn", "Frp.C18.serverSpec_rej_iff", "Frp.C18.serverSpec_web_port",
+            "Frp.C18.clientSpec_rej_of_invalid", "Frp.C18.wire_follows_tls_flag", "Frp.C18.wire_tls_distinct",
         ],
         "engines": [
             {"name": "conf", "quick_n": 12000, "thorough_n": 60000, "thorough_seeds": 5,
              "nontrivial": conf_nontrivial, "result_class": conf_class},
+            {"name": "confcmd", "quick_n": 40, "thorough_n": 200, "thorough_seeds": 3,
+             "nontrivial": confcmd_nontrivial, "result_class": confcmd_class},
         ],
         "rule": "conf engine: generated typed proxy configs (all eight types; unicode, empty vs nil lists/maps, "
                 "boundary numbers, bandwidth literals, both modes, with and without the JSON wire) through the real "
@@ -97,7 +130,21 @@ PROP = {
                 "and then all overlapping in separate goroutines with mixed strictness, every verdict compared with "
                 "strict_verdict_own; `own`: a document loaded twice by LoadClientConfig is deeply equal, Complete applied "
                 "once more changes nothing, and the configuration handed to a real client proxy.Manager (wrappers, "
-                "health monitors started) is afterwards still what the loader produced. Non-trivial = reconstruction carrying several non-zero fields, a parse that "
+                "health monitors started) is afterwards still what the loader produced; `svalv` / `ccval`: the blocks of a "
+                "server / client-common definition (auth method, scopes, log level, web server TLS pair present / "
+                "complete / incomplete, web server port, six port fields, heartbeat pair, transport protocol) generated "
+                "independently of each other through memory, the three file formats (LoadServerConfig / LoadClientConfig) "
+                "and argv, judged by the real ValidateServerConfig / ValidateClientCommonConfig. "
+                "confcmd engine: cmd/frpc and cmd/frps are BUILT from the tree under check and run as processes: one "
+                "definition as `frpc <type> [visitor] --flags` and as `frpc -c file` (every common flag on each of the "
+                "eight proxy and three visitor sub-commands, then random definitions, all five protocols) against "
+                "recording fronts (address, port, first bytes incl. inside an outer TLS session, SNI) and a real frps "
+                "with a server plugin (user, token, login verdict, the NewProxy message), log level / colour / file, "
+                "visitor bind port; one server definition as `frps --flags` and `frps -c file` (every flag; dashboard "
+                "port out of range × TLS section absent / complete / incomplete; random blocks) observed through "
+                "/api/serverinfo, listeners per loopback address, dashboard TLS / auth, /metrics and three real frpc "
+                "runs (token, tls_only, allow_ports, proxy_bind_addr); `verify -c` on the same file. Both processes "
+                "must behave the same and as CmdSpec demands. Non-trivial = reconstruction carrying several non-zero fields, a parse that "
                 "succeeded or was refused, a domain verdict with at least one custom domain, any loader / flag / "
                 "validator op; distinct = distinct (op line, result) pairs",
         "trusted": COMMON_TRUST + [
@@ -124,6 +171,16 @@ PROP = {
             "hand-written model Frp/Model/StrictLoad.lean of sync.Mutex (a blocked Lock is a stuttering step) and of "
             "which decoder reads the local strict argument (top level) and which the package-level switch (every "
             "nested Typed….UnmarshalJSON; tied by TypedConf's .strictSwitch step and by the `pload` op)",
+            "translator gen_cmdwire.go (cmd/frpc/sub/proxy.go init(): which object each New…Command / Register…Flags "
+            "call receives and whether it is declared inside the per-type loop; proxyTypes, visitorTypes; the source "
+            "text of the statements of the two Run closures and of frps' init() / RunE; statement shapes listed in "
+            "the source, anything else aborts the run as a broken tie)",
+            "hand-written model Frp/Model/CmdWire.lean of how pflag binds a flag (by address of a config field; "
+            "`tls_enable` by storing the flag set's own bool into the config) and of cobra parsing only the running "
+            "command's flag sets; hand-written Frp/Model/CmdSpec.lean (what a frpc / frps process started from a "
+            "definition must be observed doing), tied by the confcmd engine",
+            "the recording fronts, the in-process frps with its HTTP plugin and the probes of harness/eng_confcmd.go "
+            "(Go, TLS termination by crypto/tls)",
             "hand-written model Frp/Model/Flags.lean of spf13/pflag's value syntax and argv forms for the flag "
             "kinds frp uses (third-party code; tied by the `fl` op, values outside the modelled fragment are skipped)",
         ],
@@ -148,11 +205,15 @@ PROP = {
             "(not enumerated); the theorem covers all interleavings of the modelled events, the op samples real ones",
             "`own` hands the configuration to client/proxy.Manager only (visitor.Manager and the server side are C19's)",
             "annotation keys are generated valid only (k8s IsQualifiedName is not modelled)",
+            "running commands: log_max_days, dns_server, vhost_http_timeout and the visitor's own flags beyond the bind "
+            "address are given but have no observable in a short run (they are covered by the in-process flag ops); "
+            "TLS inside kcp / quic is not looked into; ValidateClientCommonConfig's feature-gate and include-directory "
+            "checks and its TLS-file warnings are outside the model (never generated)",
         ],
     }
 
 META = {
-        "engine": "lean+translate(ProxyMsg,Flags,TypedConf)+harness(conf)",
+        "engine": "lean+translate(ProxyMsg,Flags,TypedConf,CmdWire)+harness(conf,confcmd)",
         "design_ref": "DESIGN.md §6 C18, §7 item 13",
         "technique": "Lean 4 theorems over marshal/unmarshal assignment tables, flag registration tables and "
                      "Complete / UnmarshalJSON statement tables regenerated from the Go source (go/ast translators) + "
@@ -177,9 +238,16 @@ META = {
                 "every interleaving: each finished load has rejected its document exactly when it is strict and the "
                 "document has an unknown key at some level; the negation is proved for a decode outside the mutex. "
                 "Complete applied to a completed proxy definition (any user), or to a completed visitor definition "
-                "without serverUser, changes no field; with serverUser it does (witness), so only the loader may apply it.",
+                "without serverUser, changes no field; with serverUser it does (witness), so only the loader may apply it. "
+                "Server and client-common validation are exactly the conjunction of their blocks; the web server (frps "
+                "dashboard, frpc admin API) is accepted iff its TLS pair block and its port block both are, so an "
+                "accepted port is in 0..65535 with or without a webServer.tls section. Every `frpc <type>` / `<type> "
+                "visitor` sub-command is wired to its own configuration objects (regenerated from init()), which in the "
+                "model of pflag binding makes every flag incl. `--tls_enable` effective (one shared object provably "
+                "loses it on all but the last command); the Run closures and frps RunE complete, validate and start "
+                "with the registered object.",
         "note": "Trusted: Lean kernel, the translators' statement-shape recognisers, the hand-written lists of "
                 "server-relevant fields, documented flags and defaults, the numeric/validation/pflag models (tied by "
-                "12k generated ops per quick run). Not covered by theorems: the three file-format parsers, what "
+                "12k generated ops + ~65 pairs of real frpc / frps processes per quick run). Not covered by theorems: the three file-format parsers, what "
                 "counts as an unknown key, includes, template rendering (differential only); the legacy INI parser beyond single sections.",
     }
